@@ -88,8 +88,16 @@ class D:
                 cons_sql.append("constraint %s unique (%s, %s)" % (nm, aq, bq))
                 cons.append({"name": nmn, "index": {"unique": True, "columns": [a, b]}})
             elif k < 0.8:
-                cons_sql.append("foreign key (%s) references u(x)" % aq)
-                cons.append({"foreign_key": {"columns": a, "references": {"table": "u", "columns": "x"}}})
+                fk = {"columns": a, "references": {"table": "u", "columns": "x"}}
+                txt = "foreign key (%s) references u(x)" % aq
+                # referential actions, in either order
+                acts = self.r.sample([("on delete", "on_delete"), ("on update", "on_update")], self.r.choice([0, 1, 2, 2]))
+                for words, key in acts:
+                    val = self.r.choice(["cascade", "restrict", "set null", "set default"]) if key == "on_delete" else "cascade"
+                    txt += " %s %s" % (words, val)
+                    fk[key] = val.replace(" ", "_")
+                cons_sql.append(txt)
+                cons.append({"foreign_key": fk})
             else:
                 nm, nmn = self.name("k", quoted=False)
                 cons_sql.append("constraint %s check (%s > 2)" % (nm, aq))
